@@ -119,7 +119,11 @@ func c11RandReport(r *hx.Run) reporter.Report {
 		ds = append(ds, diags.Diagnostic{Message: hx.Pick(rr, []string{"m1", "m2"}), FirstColumn: 1 + rr.Intn(2), LastColumn: 3 + rr.Intn(2)})
 	}
 	p := hx.Pick(rr, []string{"a.yml", "b.yml"})
-	return reporter.Report{Path: discovery.Path{Name: p, SymlinkTarget: p}, Rule: rule,
+	pt := p
+	if rr.Intn(3) == 0 {
+		pt = hx.Pick(rr, []string{"a.yml", "b.yml", "c.yml"}) // reported through a symlink
+	}
+	return reporter.Report{Path: discovery.Path{Name: p, SymlinkTarget: pt}, Rule: rule,
 		Problem: checks.Problem{Reporter: hx.Pick(rr, []string{"promql/series", "rule/label"}), Summary: hx.Pick(rr, []string{"s1", "s2"}),
 			Details: hx.Pick(rr, []string{"", "d"}), Severity: checks.Severity(1 + rr.Intn(2)), Lines: diags.LineRange{First: first, Last: plast}, Diagnostics: ds}}
 }
@@ -127,6 +131,7 @@ func c11RandReport(r *hx.Run) reporter.Report {
 type c11Case struct {
 	Config string            `json:"config"`
 	Files  map[string]string `json:"files"`
+	Links  map[string]string `json:"symlinks,omitempty"` // link path -> path of the rule file it points to
 }
 
 func c11Render(s reporter.Summary) string {
@@ -162,6 +167,20 @@ func c11Observe(r *hx.Run, cs c11Case) {
 			return
 		}
 		entries = append(entries, es...)
+		// the same file reached through a symlink: the glob finder reports the link's name with the target's path
+		for _, l := range hx.SortedKeys(cs.Links) {
+			if cs.Links[l] != p {
+				continue
+			}
+			les, lpn := pipe.Entries(full, []byte(cs.Files[p]), opts)
+			if lpn != "" {
+				return
+			}
+			for i := range les {
+				les[i].Path.Name = filepath.Join(dir, l)
+			}
+			entries = append(entries, les...)
+		}
 	}
 	res := pipe.Check(cfg, entries, opts)
 	if res.Panic != "" || len(res.Raw) == 0 {
@@ -218,6 +237,11 @@ func c11Workers(r *hx.Run, cs c11Case, bin string) {
 		_ = os.MkdirAll(filepath.Dir(full), 0o755)
 		_ = os.WriteFile(full, []byte(c), 0o644)
 	}
+	for l, t := range cs.Links {
+		full := filepath.Join(dir, l)
+		_ = os.MkdirAll(filepath.Dir(full), 0o755)
+		_ = os.Symlink(filepath.Base(t), full) // links and targets live in one directory
+	}
 	_ = os.WriteFile(filepath.Join(dir, ".pint.hcl"), []byte(cs.Config), 0o644)
 	var base string
 	for _, w := range []int{1, 2, 3, 8, 64} {
@@ -272,6 +296,12 @@ func c11GenCase(r *hx.Run) c11Case {
 	}
 	if r.Rng.Intn(2) == 0 { // identical files: the same issue many times, duplicates folded
 		cs.Files["rules/copy.yml"] = cs.Files["rules/f0.yml"]
+	}
+	if r.Rng.Intn(3) == 0 { // a rule file that is also reached through a symlink (names sorting before and after the target)
+		cs.Links = map[string]string{hx.Pick(r.Rng, []string{"rules/a_link.yml", "rules/z_link.yml"}): "rules/f0.yml"}
+		if r.Rng.Intn(3) == 0 {
+			cs.Links["rules/m_link.yml"] = "rules/f0.yml"
+		}
 	}
 	return cs
 }
